@@ -460,5 +460,31 @@ def handlers(emit, repo):
             os.chdir(cwd)
             shutil.rmtree(scratch, ignore_errors=True)
 
+    def job_vi(job):
+        """The reachability iteration sweep by sweep (hook ReachSweep), through the public Solver API."""
+        from . import games
+        tad = _fresh("tad")
+        desc = games.to_python(job["g"])
+        sweeps = []
+        limit = job.get("limit", 400)
+
+        def sink(event, fields):
+            if event == "ReachSweep" and len(sweeps) <= limit:
+                sweeps.append(obs.nums([s.reach_probability for s in fields["state_list"]]))
+
+        old = getattr(tad, "VERIF_SINK", None)
+        tad.VERIF_SINK = sink
+        try:
+            sg = tad.StochasticGame(prune_states=False, **desc)
+            sg.check_game()
+            state_list = sg.init_states()
+            solver = tad.Solver(threshold=10 ** (-6), state_list=state_list)
+            solver.solve_reachability(sg.transition_list, sg.final_states, False)
+            emit({"e": "Sweeps", "sweeps": sweeps[:limit], "truncated": len(sweeps) > limit, "etype": ""})
+        except Exception as exc:
+            emit({"e": "Sweeps", "sweeps": sweeps[:limit], "truncated": True, "etype": type(exc).__name__})
+        finally:
+            tad.VERIF_SINK = old
+
     return {"revdfs": job_revdfs, "malformed": job_malformed, "batch": job_batch, "roborta": job_roborta,
-            "generator": job_generator}
+            "generator": job_generator, "vi": job_vi}
